@@ -155,6 +155,7 @@ fn main() {
                 shard_count: sc,
             };
             shard.rule = "run = one call sequence executed call-by-call against the reference model then torn down in a chosen handle order; distinct = hash(configuration, every command and result, teardown order); non-trivial = the sequence reached Full at least once and delivered a value after the ring had wrapped (random mode) / reached Full or the end of stream (exhaustive mode)".to_string();
+            let _guard = seq::hang::start(args.get("out").map(|s| s.to_string()), p.seed);
             if args.str("mode", "random") == "exhaustive" {
                 seq::run_exhaustive(&p, &mut shard);
             } else {
